@@ -41,8 +41,27 @@ if MODEL:
                 ca._POSITIVE.add(e.decl().name())
         return ca.DM._raw(n, m, es)
 
+    def upartials(name, nout, args_list):
+        """dE_o/d(arg entry j) of the uninterpreted function `name`, as the model names it (<name>_<o>__d<j> applied to the
+        same arguments): out[o][j]"""
+        flat = []
+        for a in args_list:
+            flat.extend(ca.tz(x) for x in ca._coerce(a).e)
+        out = []
+        for o in range(nout):
+            decl = z3.Function("%s_%d" % (name, o), *([z3.RealSort()] * (len(flat) + 1)))
+            out.append([ca.MX._raw(1, 1, [ca._dfun(decl, j)(*flat)]) for j in range(len(flat))])
+        return out
+
 else:
     import numpy as np
+
+    def upartials(name, nout, args_list):
+        """partial derivatives of the fixed polynomial standing for `name`, evaluated at the given arguments: out[o][j]"""
+        syms = [ca.MX.sym("a%d" % i, ca.MX(a).shape[0], ca.MX(a).shape[1]) for i, a in enumerate(args_list)]
+        J = ca.jacobian(ufun(name, nout, syms), ca.veccat(*syms))
+        Jv = ca.Function("J", syms, [J])(*[ca.MX(a) for a in args_list])
+        return [[Jv[o, j] for j in range(Jv.shape[1])] for o in range(nout)]
 
     def _coeffs(name, i, n):
         h = hashlib.sha256(("%s/%d/%d" % (name, i, n)).encode()).digest()
